@@ -13,6 +13,8 @@ func main() {
 	switch f.Prop {
 	case "C11":
 		runC11(f)
+	case "C07":
+		runC07(f)
 	default:
 		fmt.Fprintln(os.Stderr, "h-set: unknown property", f.Prop)
 		os.Exit(2)
